@@ -11,7 +11,7 @@ META = {
             "set, error attributes exact); allowed-set equality decided on a fresh symbolic member; M/value: one "
             "leaf (thorough: pairs) of a well-formed shape symbolic over its whole width, reference = RefDec.",
     "bounds": {
-        "quick": "all primitive types; every leaf of the minimal shapes of 14 seed-rotated command codes + core",
+        "quick": "all primitive types; every constrained leaf of the minimal shapes of 9 seed-rotated command codes + core",
         "thorough": "every leaf and every adjacent pair of leaves of all shapes of all command codes",
     },
     "outside": "more than two symbolic leaves at once in M/value (all leaves at once are covered for wide types by C13/C02)",
